@@ -12,7 +12,7 @@ import itertools
 from .model import AnalysisError, src, dotted, call_name, norm_stmt
 
 
-TOKENS = ("read", "call", "array", "attr", "op", "neg", "entry", "obj", "symmat", "tr", "slice", "matrix", "type")
+TOKENS = ("read", "call", "array", "attr", "op", "neg", "entry", "obj", "symmat", "tr", "slice", "matrix", "type", "cmp")
 
 
 def is_token(v):
@@ -63,6 +63,21 @@ class VecObj(SymObj):
 
 def _is_rat(x):
     return type(x).__name__ == "Rat"
+
+
+def _deep_eq(a, b):
+    """== of containers whose leaves may be exact rationals (which compare by value here, generic symbols being equal only to themselves)"""
+    if _is_rat(a) or _is_rat(b):
+        try:
+            d = a - b
+            return d.is_zero() if _is_rat(d) else d == 0
+        except Exception:
+            return False
+    if isinstance(a, dict) and isinstance(b, dict):
+        return a.keys() == b.keys() and all(_deep_eq(a[k], b[k]) for k in a)
+    if isinstance(a, (list, tuple)) and isinstance(b, (list, tuple)) and type(a) is type(b):
+        return len(a) == len(b) and all(_deep_eq(x, y) for x, y in zip(a, b))
+    return a == b
 
 
 class _Return(Exception):
@@ -179,6 +194,16 @@ class IndexInterp:
                     res = self.on_compare(left, type(op).__name__, right, e)
                     if res is not NotImplemented:
                         return res
+                if isinstance(op, (ast.Eq, ast.NotEq)) and isinstance(left, (dict, list, tuple)) and isinstance(right, (dict, list, tuple)) \
+                        and not is_token(left) and not is_token(right) and type(left) is type(right):
+                    same = _deep_eq(left, right)
+                    if same != isinstance(op, ast.Eq):
+                        return False
+                    left = right
+                    continue
+                if len(e.ops) == 1 and isinstance(op, (ast.Eq, ast.LtE, ast.GtE, ast.Lt, ast.Gt)) and \
+                        any(is_token(x) and x[0] in ("read", "call", "op", "neg", "tr", "entry") for x in (left, right)):
+                    return ("cmp", type(op).__name__, left, right)          # a comparison of symbolic values builds a symbolic relation
                 if (_is_rat(left) or _is_rat(right)) and isinstance(op, (ast.Eq, ast.NotEq)) and all(_is_rat(x) or isinstance(x, (int, float)) for x in (left, right)):
                     # exact rationals: a symbolic weight is generic (equal to nothing but itself); Rat(0) == 0
                     from fractions import Fraction
@@ -365,6 +390,20 @@ class IndexInterp:
             return list(itertools.combinations(self._iterate(args[0], e), args[1]))
         if plain and nm == "combinations_with_replacement" and len(args) == 2:
             return list(itertools.combinations_with_replacement(self._iterate(args[0], e), args[1]))
+        if plain and nm == "next" and isinstance(e.func, ast.Name) and 1 <= len(args) <= 2 and isinstance(args[0], list):
+            # a generator expression is evaluated eagerly to a list (its elements have no effects here): next() takes the first element
+            if args[0]:
+                return args[0][0]
+            if len(args) == 2:
+                return args[1]
+            raise AnalysisError("the index program raises: StopIteration")
+        if plain and nm in ("any", "all") and len(args) == 1 and isinstance(args[0], list):
+            vals = [self.truth(x) for x in args[0]]
+            return any(vals) if nm == "any" else all(vals)
+        if plain and nm == "dict" and not args and isinstance(e.func, ast.Name):
+            return dict(kw)
+        if plain and nm == "dict" and len(args) == 1 and isinstance(args[0], dict) and isinstance(e.func, ast.Name):
+            return dict(args[0], **kw)
         if plain and nm in ("list", "tuple") and len(args) <= 1:
             seq = self._iterate(args[0], e) if args else []
             return list(seq) if nm == "list" else tuple(seq)
